@@ -158,8 +158,8 @@ def dec_values(op, arr, emb):
 def set_config(case):
     from groupby_lib import _verif
     from groupby_lib.groupby import core
-    core.THRESHOLD_FOR_CHUNKED_FACTORIZE = case.get("T", 1_000_000)
-    _verif.ROWS_PER_THREAD = case.get("R", 1_000_000)
+    core.THRESHOLD_FOR_CHUNKED_FACTORIZE = case.get("T") or 1_000_000
+    _verif.ROWS_PER_THREAD = case.get("R") or 1_000_000
 
 
 def to_1d(obj):
@@ -197,7 +197,7 @@ def run_reduce(case, gb=None):
     try:
         keyobj, encs = build_keys(case)
         tr["rank"], tr["seed"] = key_meta(case, encs)
-        values = wrap_container(emb.enc(case["vals"]), case.get("vcont", "np"), name=case.get("vname"))
+        values = wrap_container(emb.enc(case["vals"]), case.get("vcont", "np"), name=case.get("vname"), index=case.get("vindex"))
         mask = build_call_mask(case, n)
     except Exception as ex:
         raise RuntimeError(f"harness could not build inputs: {type(ex).__name__}: {ex}")
@@ -235,4 +235,12 @@ def run_reduce(case, gb=None):
             labels = [[encs[0].dec(x)] for x in index.tolist()]
         tr["labels"] = labels
     tr["rtype"] = type(out).__name__
+    if case["tf"] and op != "size":
+        # C07: the container follows the input, and a pandas input's index is carried
+        vc = case.get("vcont", "np")
+        tr["kindok"] = int(isinstance(out, (pl.Series, pl.DataFrame)) if vc == "pl" else isinstance(out, (pd.Series, pd.DataFrame)))
+        if vc == "series" and case.get("vindex") is not None:
+            tr["idxok"] = int(list(out.index) == list(case["vindex"]))
+        elif vc != "pl":
+            tr["idxok"] = int(list(out.index) == list(range(n)))
     return tr
